@@ -131,6 +131,24 @@ def zygote_init(repo: str) -> None:
             self.sim_structure_calls = 0
             self.sim_tag = None
 
+    class ReentrantConverter(CountingConverter):
+        """A converter class of the user that itself calls get_converter() (for a helper converter of its
+        own) the first time something is registered on it — i.e. from inside lsprotocol's registration."""
+
+        __slots__ = ("sim_helper",)
+
+        def __init__(self, *a: Any, **kw: Any) -> None:
+            object.__setattr__(self, "sim_helper", False)
+            super().__init__(*a, **kw)
+            self.sim_helper = None
+
+        def register_structure_hook_factory(self, *a: Any, **kw: Any) -> Any:
+            if self.sim_helper is None:
+                self.sim_helper = True
+                self.sim_helper = conv.get_converter()
+            return super().register_structure_hook_factory(*a, **kw)
+
+    Z["Reentrant"] = ReentrantConverter
     from . import usertypes
 
     Z["user_types"] = usertypes.make(lsp)
@@ -253,7 +271,7 @@ def do_build(conv: Any, k: int) -> Tuple:
         return ("err", type(e).__name__, core.digest(exc_shape(e)))
 
 
-CUSTOM_VARIANTS = ["position", "range", "severity", "primitives", "factory", "optional"]
+CUSTOM_VARIANTS = ["position", "range", "severity", "primitives", "factory", "optional", "ownscalar"]
 
 
 def customise(conv: Any, variant: str = "position") -> None:
@@ -293,6 +311,12 @@ def customise(conv: Any, variant: str = "position") -> None:
 
         conv.register_structure_hook_factory(is_text_edit, make_te)
         conv.register_unstructure_hook_factory(lambda t: t is lsp.Command, lambda _t: (lambda c: {"title": c.title.upper(), "command": c.command}))
+    elif variant == "ownscalar":
+        # predicate hooks for the user's OWN scalar type (not an attrs class, so nothing lsprotocol
+        # registers ever shadows them)
+        UserUri = Z["user_types"]["UserUri"]
+        conv.register_structure_hook_func(lambda t: t is UserUri, lambda o, _tt: UserUri(str(o).lower() + "#u"))
+        conv.register_unstructure_hook_func(lambda t: t is UserUri, lambda v: str(v.value) + "?u")
     elif variant == "optional":
         # a user hook for a generic alias
         from typing import Optional as _Opt
@@ -324,6 +348,8 @@ def make_user(cfg: Any) -> Any:
         kw["detailed_validation"] = cfg["dv"]
     if cfg.get("fek"):
         kw["forbid_extra_keys"] = True
+    if cfg.get("x") == "reent":
+        return Z["Reentrant"](**kw)
     if cfg.get("x") == "oid":
         kw["omit_if_default"] = True
     elif cfg.get("x") == "pac":
@@ -336,7 +362,8 @@ def cfg_of(cfg: Any) -> Tuple[bool, bool, str]:
     default dv=True); other option: '-' | 'oid' (omit_if_default) | 'pac' (prefer_attrib_converters)."""
     if not isinstance(cfg, dict):
         cfg = {"dv": cfg, "fek": False}
-    return (True if cfg.get("dv") is None else bool(cfg["dv"]), bool(cfg.get("fek")), cfg.get("x") or "-")
+    x = cfg.get("x") or "-"
+    return (True if cfg.get("dv") is None else bool(cfg["dv"]), bool(cfg.get("fek")), "-" if x == "reent" else x)
 
 
 def gkey(custom: Optional[str], dv: bool, fek: bool, x: str = "-") -> str:
@@ -462,10 +489,20 @@ def gen_run(run_seed: int, tier: str) -> Dict[str, Any]:
             return {"dv": dv, "fek": True}
         if y < 0.28:
             return {"dv": None, "fek": False, "x": r_ops.choice(["oid", "pac"])}
+        if y < 0.36:
+            # the user's converter class calls get_converter() itself while lsprotocol registers on it
+            return {"dv": dv, "fek": False, "x": "reent"}
         return dv
 
     shared_dv = [rand_cfg() for _ in range(n_shared)]
     shared_custom = [r_ops.choice(CUSTOM_VARIANTS) if r_ops.random() < 0.25 else None for _ in range(n_shared)]
+    rereg = shape == "burst" and r_ops.random() < 0.4
+    if rereg:
+        # ONE converter of the user (often customised beforehand) handed to get_converter over and over
+        # (a framework that calls get_converter(conv) per request): counts up to 300
+        n_shared = 1
+        shared_dv = [r_ops.choice([None, True, False, {"dv": None, "fek": True}])]
+        shared_custom = [r_ops.choice(CUSTOM_VARIANTS + ["ownscalar"] * 6 + [None])]
 
     base_n = N_BASE_STRUCT - len(battery.BIG)
     small_invalid = [i for i, b in enumerate(battery.STRUCT[:base_n]) if b[0] in ("position-neg", "position-big", "position-missing", "diagnostic-bad-sev", "null-required", "wrong-shape-list")]
@@ -597,6 +634,15 @@ def gen_run(run_seed: int, tier: str) -> Dict[str, Any]:
                 for _ in range(r_ops.randint(2, 5)):
                     ops.append(["USE", 0, r_ops.choice(small_invalid) if r_ops.random() < 0.6 else pick_k()])
             nslots = 1
+        elif shape == "burst" and rereg:
+            ops.append(["GET", 0, "shared", 0])
+            ops += use_ops(0, 2)
+            ops.append(["REREG", 0, r_ops.choice([5, 300, 300, 300])])
+            ops += use_ops(0, 4)
+            ops.append(["FULLUSE", 0])
+            ops.append(["GET", 1, "fresh", None])
+            ops += use_ops(1, 2)
+            nslots = 2
         elif shape == "burst":
             m = r_ops.choice([8, 33, 64, 100, 128])
             ops.append(["GET", 0, "fresh", None])
@@ -741,6 +787,7 @@ def execute(run: Dict[str, Any], golden: Dict[str, Any]) -> Dict[str, Any]:
         "reget": 0,
         "copy_of_earlier_converter": 0,
         "global_converter_handed_over": 0,
+        "reregistered_300_times": 0,
         "whole_battery_on_one_converter": 0,
         "interrupt_delivered": 0,
         "interrupt_swallowed": 0,
@@ -894,7 +941,7 @@ def execute(run: Dict[str, Any], golden: Dict[str, Any]) -> Dict[str, Any]:
                 # the simulated clock jumps between operations: milliseconds, a minute, an hour, a day
                 sim_now[0] += r_clock.choice([0.001, 0.5, 61.0, 3601.0, 86401.0])
                 probes["clock_jumps"] += 1
-            if kind in ("USE", "BUILD", "CUSTOM", "REGET", "DROP", "FULLUSE") and op[1] not in slots:
+            if kind in ("USE", "BUILD", "CUSTOM", "REGET", "REREG", "DROP", "FULLUSE") and op[1] not in slots:
                 continue  # slot never created (minimised script): no-op
             sched.yield_point(("op", oi, kind))
             outcome: Any = None
@@ -1001,6 +1048,19 @@ def execute(run: Dict[str, Any], golden: Dict[str, Any]) -> Dict[str, Any]:
                     slots[op[1]] = c2
                     probes["reget"] += 1
                     outcome = ("got",)
+                elif kind == "REREG":
+                    c = slots[op[1]]
+                    for _i in range(op[2]):
+                        c2 = conv_mod.get_converter(c)
+                        if c2 is not c:
+                            mode.setdefault(id(c2), mode.get(id(c)))
+                            cfgs.setdefault(id(c2), cfgs.get(id(c), (True, False, "-")))
+                            keep_alive.append(c2)
+                            c = c2
+                    slots[op[1]] = c
+                    if op[2] >= 300:
+                        probes["reregistered_300_times"] += 1
+                    outcome = ("got",)
                 elif kind == "DROP":
                     c = slots.pop(op[1])
                     if not any(v is c for v in slots.values()) and not any(v is c for v in shared):
@@ -1101,7 +1161,7 @@ def execute(run: Dict[str, Any], golden: Dict[str, Any]) -> Dict[str, Any]:
                 elif kind == "YIELD":
                     outcome = ("yield",)
             except Exception as e:  # an op of the system under test raised: that is an observation
-                if kind in ("GET", "GETX", "REGET", "BURST"):
+                if kind in ("GET", "GETX", "REGET", "REREG", "BURST"):
                     tb = traceback.extract_tb(e.__traceback__)
                     where = ""
                     for fr in reversed(tb):
